@@ -397,6 +397,21 @@ def run_multifile(fmt):
                     if bad:
                         viols.append((f"C07:multifile:{fmt}:{how}:decoding", f"{nfiles} {fmt} files ({how}): a data line is decoded differently (or out of order): fields {bad}", case))
                         break
+        if fmt == "kida":
+            # a file of database size (beyond 1 MiB): one reaction per data line, to the last line
+            nlines = 1 + (1 << 20) // (len(picks[0][2]) + 1) + 600
+            big = tmp / "big.kida"
+            big.write_text("\n".join(picks[i % 3][2] for i in range(nlines)) + "\n")
+            n += 1
+            try:
+                with quiet():
+                    net = Network(filelist=str(big), fileformats=fmt)
+                if len(net.reaction_list) != nlines:
+                    viols.append((f"C07:large-file:count", f"a KIDA file of {nlines} data lines ({big.stat().st_size} bytes) gives {len(net.reaction_list)} reactions", {"fmt": fmt, "multifile": 1, "how": "large-file"}))
+                elif compare(fmt, picks[(nlines - 1) % 3][1], observe(net.reaction_list[-1])):
+                    viols.append((f"C07:large-file:last-line", f"the last line of a KIDA file of {nlines} data lines is decoded differently", {"fmt": fmt, "multifile": 1, "how": "large-file"}))
+            except Exception as e:
+                viols.append((f"C07:large-file:raises", f"a KIDA file of {nlines} data lines raises {e!r}", {"fmt": fmt, "multifile": 1, "how": "large-file"}))
         return n, viols
     finally:
         shutil.rmtree(tmp, ignore_errors=True)
